@@ -329,6 +329,24 @@ static int cert_ok(void) {
   return ledger_ok();
 }
 
+/* Cavity2.segIdsOk, without refine code: every live seg carries the face id of some listed live tri */
+static int seg_ids_ok(void) {
+  REF_CELL tri = ref_grid_tri(ref_grid);
+  REF_LIST rl = ref_cavity_tri_list(ref_cavity);
+  REF_INT i, item, cell;
+  for (i = 0; i < ref_cavity_maxseg(ref_cavity); i++) {
+    int found = 0;
+    if (REF_EMPTY == ref_cavity->s2n[3 * i]) continue;
+    for (item = 0; item < ref_list_n(rl) && !found; item++) {
+      cell = ref_list_value(rl, item);
+      if (cell < 0 || cell >= ref_cell_max(tri) || REF_EMPTY == tri->c2n[ref_cell_size_per(tri) * cell]) continue;
+      if (tri->c2n[3 + ref_cell_size_per(tri) * cell] == ref_cavity->s2n[2 + 3 * i]) found = 1;
+    }
+    if (!found) return 0;
+  }
+  return 1;
+}
+
 /* a call of one of the three functions with a `while (keep_growing)` loop, under the call budget */
 static void enlarge_op(int which) {
   REF_STATUS s;
@@ -862,7 +880,7 @@ int main(int argc, char **argv) {
     } else if (is_op("replace", 1)) {
       st_line(ref_cavity_replace(ref_cavity));
     } else if (is_op("ledger", 1)) {
-      fprintf(out, "ok %d %d\n", ledger_ok(), cert_ok());
+      fprintf(out, "ok %d %d %d\n", ledger_ok(), cert_ok(), seg_ids_ok());
     } else if (is_op("node23", 3)) {
       long long a = h_i(h_w[1]), b = h_i(h_w[2]);
       REF_INT node2 = REF_EMPTY, node3 = REF_EMPTY;
